@@ -3,6 +3,8 @@ NEXT Next
 CONSTANTS
   FlatLen = 4
   Mode = "misc"
+  EnumCap32 = FALSE
+  UnionFieldCallback = TRUE
   Small = TRUE
 INVARIANT Sane
 INVARIANT ImplSatisfiesProperty
